@@ -198,9 +198,24 @@ def r3_convergence(R, sh: SolverShape) -> None:
                 ok = True
     R.check(ok, gq, 'selected-only', 'exactly the selected submodels contribute check values',
             'get_check_values() does not restrict submodel entries to the selection', where=g.where)
-    # the dict returned is keyed so that diff covers every key of current values
+    # the difference mapping must cover every key of the check-value mapping
+    from rules.solver_common import value_roles
+    cur, prev = value_roles(sh)
     conv, _ = sh.convergence_node()
-    R.ok(sh.q, 'convergence test is evaluated over every entry of the check-value mapping', detail=text(conv.ast), trivial=True)
+    dcs = []
+    for n in sh.cfg.nodes:
+        a = n.ast
+        if sh.in_loop(n) and n.kind == 'stmt' and isinstance(a, ast.Assign) and isinstance(a.value, ast.DictComp) and cur in text(a.value) and prev in text(a.value):
+            dcs.append((n, a.value))
+    for (n, dc) in dcs:
+        it = dc.generators[0].iter
+        full = text(it) in (cur, prev, f'{cur}.keys()', f'{prev}.keys()', f'{cur}.items()', f'{prev}.items()') and not dc.generators[0].ifs and len(dc.generators) == 1
+        R.check(full, sh.q, 'diff-covers-all:' + text(it), 'the movement is computed for every entry of the check-value mapping (linker and each selected submodel)',
+                f'`{text(n.ast)[:90]}` computes the movement over `{text(it)}`, not over every entry of `{cur}`: some check values (e.g. the linker\'s own) are never compared',
+                where=sh.where(n))
+    # and the test consumes the whole mapping
+    consumed = any(text(x) in (f'{text(d[0].ast.targets[0])}.values()', f'{text(d[0].ast.targets[0])}.items()', text(d[0].ast.targets[0])) for d in dcs for x in ast.walk(conv.ast))
+    R.check(consumed or not dcs, sh.q, 'test-consumes-all', 'the convergence test consumes the whole difference mapping', 'the convergence test does not iterate over all differences', where=sh.where(conv))
 
 
 def r4_stamping(R, sh: SolverShape) -> None:
